@@ -537,6 +537,25 @@ func c16Case(r *mon.Run, raw string, e, n *int64) {
 		if top2.URL != red || top2.Err != error(mid) || mid.URL != "https://second.example/other?x=1" || mid.Err != error(deep) || deep.URL != "https://third:pw@third.example/z" {
 			r.Violation("urlerr-nested:"+mon.Q(raw), fmt.Sprintf("RedactUserinfoInURLError on a *url.Error that wraps *url.Errors about other URLs: top URL %q (want %q), nested URLs %q and %q (must stay as they were)", top2.URL, red, mid.URL, deep.URL), map[string]any{"raw": raw})
 		}
+		// chained use: the URL handed in is itself the result of an earlier redaction (its userinfo is the mask),
+		// the error still carries the credentials - it has userinfo, so the text is replaced
+		already := urlutil.RedactUserinfo(&u)
+		top3 := &url.Error{Op: "Get", URL: u.String(), Err: errors.New("boom")}
+		urlutil.RedactUserinfoInURLError(already, top3)
+		*e++
+		if top3.URL != red {
+			r.Violation("urlerr-chained:"+mon.Q(raw), fmt.Sprintf("RedactUserinfoInURLError(RedactUserinfo(u), err) left the error's URL as %q, want %q", top3.URL, red), map[string]any{"raw": raw})
+		}
+		// ... and the error's own text does not matter: it may be another spelling, a relative reference, empty
+		for _, other := range []string{"", "/login?user=" + c.user + "&password=" + c.pass, strings.TrimPrefix(u.String(), u.Scheme+"://"), "https://other.example/"} {
+			top4 := &url.Error{Op: "Get", URL: other, Err: errors.New("boom")}
+			urlutil.RedactUserinfoInURLError(&u, top4)
+			*e++
+			if top4.URL != red {
+				r.Violation("urlerr-text:"+mon.Q(raw), fmt.Sprintf("RedactUserinfoInURLError(u, err with URL text %q) wrote %q, want the redacted form of u %q", other, top4.URL, red), map[string]any{"raw": raw})
+				break
+			}
+		}
 		urlutil.RedactUserinfoInURLError(&u, nil)
 	}
 }
